@@ -173,23 +173,23 @@ theorem strip_dropTransport (t : Eio) (s : Srv) : strip t (dropTransport s t) = 
   simp only [strip, dropTransport, List.filter_filter, Bool.and_self]
 
 /-- the hostile transport's own inputs: its frames, and engine.io opening / losing it -/
-def ofT (t : Eio) : Input → Prop
-  | .eioConnect t' => t' = t
-  | .frame t' _ => t' = t
-  | .eioLost t' _ => t' = t
-  | _ => False
+def ofT (t : Eio) : Input → Bool
+  | .eioConnect t' => t' == t
+  | .frame t' _ => t' == t
+  | .eioLost t' _ => t' == t
+  | _ => false
 
 theorem strip_hostile {s : Srv} (h : WF s) (dec : Str → Except Err (Packet × Nat)) (cfg : Cfg)
-    {t : Eio} {i : Input} (hi : ofT t i) :
+    {t : Eio} {i : Input} (hi : ofT t i = true) :
     ∃ d, strip t (step dec cfg s i).1 = bump d (strip t s) := by
   cases i with
   | eioConnect t' =>
-    cases hi
+    have ht : t = t' := (eq_of_beq hi).symm; subst ht
     refine ⟨0, ?_⟩
     rw [step]
     simp [strip, bump, List.filter_append]
   | frame t' v =>
-    cases hi
+    have ht : t = t' := (eq_of_beq hi).symm; subst ht
     have hw := h.step dec cfg (.frame t v)
     have hn : s.nextSid ≤ (step dec cfg s (.frame t v)).1.nextSid := by
       have := nextSid_mono h dec cfg [.frame t v]
@@ -197,7 +197,7 @@ theorem strip_hostile {s : Srv} (h : WF s) (dec : Str → Except Err (Packet × 
     refine ⟨_, strip_of_view ?_ (hw.pendingNil.trans h.pendingNil.symm) hn⟩
     rw [step]; exact view_handleFrame h dec cfg t v
   | eioLost t' r =>
-    cases hi
+    have ht : t = t' := (eq_of_beq hi).symm; subst ht
     refine ⟨0, ?_⟩
     rw [step, handleLost_eq]
     split
